@@ -40,8 +40,26 @@ def gen_cases(ctx):
         inst = gen.gen_instance(rng, cls, max_jobs=rng.choice([2, 3, 4]),
                                 max_machines=rng.choice([2, 3, 4]),
                                 max_ops=rng.randint(4, hi))
+        c = {"kind": "walk", "instance": inst, "seed": rng.randrange(2**31),
+             "unfiltered_twin": i % 5 == 0,
+             # how the user obtained the filter: the function itself, the factory, a composite
+             "form": ["function", "factory", "string", "enum"][i % 4]}
+        if gen.is_flexible(inst) and i % 2:
+            c["form"] = "string"  # composite from the public factory, alternative machines
+        if i % 6 == 1 and gen.num_ops(inst) <= 7:
+            # a search that branches by copying the dispatcher instead of reset + replay
+            c["branch"] = "deepcopy"
+        yield c
+    # dense flexible instances (most operations have alternative machines): many histories reach
+    # the same job progress with different clocks
+    for i in range(ctx.scale(450, 24000)):
+        J, P, M = rng.choice([(2, 3, 2), (2, 4, 2), (3, 2, 2), (2, 3, 3), (3, 3, 3) if hi > 8 else (2, 4, 2)])
+        inst = {"cls": "flexible",
+                "durations": [[rng.randint(1, 6) for _ in range(P)] for _ in range(J)],
+                "machines": [[sorted(rng.sample(range(M), rng.randint(1, M))) for _ in range(P)]
+                             for _ in range(J)]}
         yield {"kind": "walk", "instance": inst, "seed": rng.randrange(2**31),
-               "unfiltered_twin": i % 5 == 0}
+               "unfiltered_twin": False, "form": ["string", "string", "factory"][i % 3]}
     if ctx.tier == "thorough":
         for i in range(ctx.scale(0, 180)):
             inst = gen.gen_instance(rng, "classic", max_jobs=4, max_machines=3)
@@ -51,6 +69,54 @@ def gen_cases(ctx):
 
 class TooBig(Exception):
     """logical node budget of one tree walk exceeded: the instance is left unjudged"""
+
+
+def walk_by_copy(ctx, inst, filter_spec, stats):
+    """Same tree, but each child state is reached on a copy.deepcopy of the parent's dispatcher
+    (the parent is used again for the next sibling)."""
+    import copy
+    run = Run(inst, filter_spec)
+    r = run.r
+    memo = {}
+
+    def rec(d):
+        if r.complete():
+            stats["leaves"] += 1
+            real = d.schedule.makespan()
+            if real != max(r.machine_end) or not d.schedule.is_complete():
+                stats["leaf_mismatch"] = {"history": list(r.history), "real_makespan": real,
+                                          "reference_makespan": max(r.machine_end)}
+            return real
+        key = r.copy_state()
+        if key in memo:
+            return memo[key]
+        stats["nodes"] += 1
+        if stats["nodes"] > 20000:
+            raise TooBig()
+        avail = [o.operation_id for o in d.available_operations()]
+        ready = r.ready()
+        if len(avail) < len(ready):
+            stats["pruned"] += len(ready) - len(avail)
+        if not avail or any(a not in ready for a in avail):
+            ctx.violation("c08_filtered_tree_dead_end_or_foreign_operation",
+                          {"available": avail, "ready": ready, "history": list(r.history),
+                           "branching": "deepcopy"})
+            memo[key] = float("inf")
+            return memo[key]
+        best = float("inf")
+        for o in avail:
+            for m in r.op_machines[o]:
+                snap = r.clone()
+                child = copy.deepcopy(d)
+                j, p = r.op_job[o], r.job_next[r.op_job[o]]
+                child.dispatch(child.instance.jobs[j][p], m)
+                r.apply(o, m)
+                best = min(best, rec(child))
+                r.__dict__.update(snap.__dict__)
+        memo[key] = best
+        return best
+
+    return rec(run.d)
 
 
 def walk(ctx, inst, filter_spec, stats):
@@ -112,7 +178,13 @@ def run_case(ctx, case):
         ctx.count("reference_search_gave_up")
         return
     try:
-        best = walk(ctx, inst, {"names": ["dominated_operations"], "form": "function"}, stats)
+        spec = {"names": ["dominated_operations"], "form": case.get("form", "function")}
+        if case.get("branch") == "deepcopy":
+            best = walk_by_copy(ctx, inst, spec, stats)
+            ctx.count("trees_walked_by_copying_the_dispatcher")
+        else:
+            best = walk(ctx, inst, spec, stats)
+        ctx.count("filter_obtained_as_" + spec["form"])
     except TooBig:
         ctx.count("instances_abandoned_node_budget")
         return
@@ -126,7 +198,8 @@ def run_case(ctx, case):
     if best != opt:
         ctx.violation("c08_filtered_tree_misses_optimum",
                       {"filtered_best": best if best != float("inf") else "no complete history",
-                       "optimum": opt})
+                       "optimum": opt, "filter_form": case.get("form", "function"),
+                       "branching": case.get("branch", "reset+replay")})
     if case.get("unfiltered_twin") and gen.num_ops(inst) <= 9:
         s2 = {"leaves": 0, "nodes": 0, "pruned": 0}
         try:
